@@ -97,6 +97,25 @@ def check(ctx: Ctx) -> str:
     ctx.check(len(sets) == 1 and any(g == "frame.rootlevel" and pol for g, pol in astq.guard_texts(ve.node, sets[0])), "known-extends:rootlevel", "compiler:CodeGenerator.visit_Extends", "known extends only at root level",
               "has_known_extends may only be set for an extends at root level (not inside an if)", ve.loc())
     template_passthrough_rule(ctx, "R5")
+
+    ctx.rule("R7", "who-may-write: the flag that keeps a child template's top-level output from being rendered (Frame.require_output_check) is switched off only for frames whose output is captured *and never written at that place*: macro bodies and set blocks")
+    allowed_w = {
+        ("compiler", "Frame.__init__"): "initial value / inherited from the parent frame",
+        ("compiler", "CodeGenerator.visit_Template"): "root frame: set from `have_extends and not has_known_extends`",
+        ("compiler", "CodeGenerator.macro_body"): "a macro body runs when the macro is called, not where it is defined",
+        ("compiler", "CodeGenerator.visit_AssignBlock"): "a set block only assigns its captured text",
+    }
+    n_w = 0
+    for mod in ("compiler", "nativetypes"):
+        m_ = repo.module(mod)
+        for n_ in ast.walk(m_.tree):
+            if isinstance(n_, ast.Attribute) and n_.attr == "require_output_check" and isinstance(n_.ctx, ast.Store):
+                n_w += 1
+                q = astq.enclosing_qual(n_)
+                ctx.check((mod, q) in allowed_w, f"output-check-writer:{mod}:{q}", f"{mod}:{q}", "switches the output check of a frame",
+                          f"{mod}.{q} assigns `{ast.unparse(n_)}`: outside the reviewed sites ({sorted(k[1] for k in allowed_w)}) this disables the `if parent_template is None:` guard for constructs that *do* write their captured text in place - a `{{% filter %}}` block outside the blocks of a child template is then rendered although the template extends another",
+                          f"{m_.rel}:{n_.lineno}", detail={"writer": f"{mod}:{q}", "reason": allowed_w.get((mod, q))})
+    ctx.floor("assignments to require_output_check", n_w, 4)
     # a scoped block receives the enclosing loop's variables - `loop` exists only if visit_For
     # recognises the block anywhere below the loop (rule owned by C07)
     from .c07 import undeclared_visitor_rule
